@@ -26,6 +26,14 @@ pub struct C06;
 const BUDGET: u32 = 2_000;
 
 fn recover<A: Flavor>(cfg: &Cfg, snap: &CrashSnap, live: &[LiveRec], post: &[Op], opdesc: &str) -> Result<BTreeSet<&'static str>, Viol> {
+    // every predicate evaluated on the reopened arena is C06's own business
+    let prev = crate::enga::set_owner(None);
+    let r = recover_inner::<A>(cfg, snap, live, post, opdesc);
+    crate::enga::set_owner(prev);
+    r
+}
+
+fn recover_inner<A: Flavor>(cfg: &Cfg, snap: &CrashSnap, live: &[LiveRec], post: &[Op], opdesc: &str) -> Result<BTreeSet<&'static str>, Viol> {
     let page = page_size();
     let off = cfg.off_pages as usize * page;
     let path = fresh_path();
@@ -276,10 +284,17 @@ impl Prop for C06 {
         (case_strategy(&p), prop::collection::vec(op_strategy(&pp), 1..=npost), any::<u32>()).prop_map(move |(c, post, pick)| CaseC06 { cfg: c.cfg, ops: c.ops, post, pick, all }).boxed()
     }
     fn run(case: &CaseC06) -> CaseReport {
-        match case.cfg.flavor {
+        crate::enga::set_owner(Some("C06"));
+        let mut r = match case.cfg.flavor {
             Fl::Sync => run_c06::<sync::Arena>(case),
             Fl::Unsync => run_c06::<unsync::Arena>(case),
+        };
+        let f = crate::enga::take_foreign();
+        crate::enga::set_owner(None);
+        if r.viol.is_none() {
+            r.viol = f;
         }
+        r
     }
     fn cases(tier: Tier) -> u64 {
         scale(tier, 3000, 50_000)
